@@ -56,3 +56,9 @@ claim("C04", "other",
       "Inductive invariant key == from-scratch key: type-resolved who-may-write over the hashed components (a write from anywhere else in the crate is a violation), and for every allowed writer a control-equivalence pairing of each component write with the toggle of the matching table word and arguments (pieces, side, en-passant out/in, 12 guarded castling revocations, 4 guarded reverts), constructors computing the key last, and identical table fields / index maps in the from-scratch function and the mutators. Path independence over all histories follows by induction.",
       "assumes XOR-toggle semantics and generated moves; FEN equality additionally needs C07.",
       "static analysis: who-may-write + control-equivalence pairing + symbolic index-map comparison over rustc MIR", "DESIGN.md section 3 C04")
+
+
+claim("C17", "proof",
+      "Every Evaluator::evaluate implementation is summarised from MIR as contributions (kind, side, coefficient, sign); the obligations (added table == subtracted table as multisets; added terms on current_turn, subtracted on current_turn.opposite(); Color::opposite an involution; accumulator starts at 0 with no other update and no other board read; get_piece_count uses the same (kind, colour) -> bitboard bijection as add_piece/remove_piece) give eval(p) = sum_K v_K (n(K,mover) - n(K,opponent)), hence both symmetries for all positions.",
+      "assumes no i16 saturation (legal material <= 10300) and that the bitboards hold what add_piece/remove_piece put there.",
+      "static analysis: symbolic summarisation of the evaluator + table equality over rustc MIR", "DESIGN.md section 3 C17")
